@@ -27,7 +27,7 @@ TRUSTED = ["delay_map::HashMapDelay::remove removes the entry and its timer; exp
 
 def r1(ctx):
     facts = ctx.facts
-    rule = Rule("C03.R1", "a handshake needs and consumes an outstanding challenge for exactly (src id, src address)", floor=5,
+    rule = Rule("C03.R1", "a handshake needs and consumes an outstanding challenge for exactly (src id, src address)", floor=4,
                 engine="A-dom + A-prov")
     b = body_of(facts, H + "handle_auth_message")
     rule.analysed(b)
